@@ -5,10 +5,17 @@ Invalid, named deviations), bounded instance specs/MC_C02.tla, trace specificati
 specs/Trace_C02.tla.
 
 spec -> code: TLC builds argument lists by actions (a bottom-up stack machine, so BFS enumerates
-    every list inside the bounds exactly once) in four configurations - V: one argument, nested
+    every list inside the bounds exactly once) in six configurations - V: one argument, nested
     literals; A: up to three arguments, shallow values; R: the rich leaf alphabet (strings holding
     syntax characters / quotes / `%}`, translations, nested {{ }} {% %} {# #} strings, filter
-    chains with arguments, dotted lookups); I: exactly one documented-invalid construct - and
+    chains with arguments, dotted lookups); I: exactly one documented-invalid construct; N / M: the
+    value-sensitive alphabets (the property holds "against all context values"): variables and
+    literals that resolve to None / False / 0 / "" / a failed lookup, and text holding the
+    HTML-special characters & < > ' " (plain and marked safe), each as an argument, as keyword and
+    aggregate value, as list item, as dict KEY and dict value, as item / key / value coming out of
+    a `*` / `**` / `...` spread (variables and single-tag strings as operands), as filter argument,
+    inside a single-tag nested string ("{{ amp }}": the original value, unescaped, None stays
+    None) and inside a rendered nested string ("{{ amp }}!": what stock Django renders) - and
     exports every list with its text under each style of a pairwise covering array of layout
     knobs (TLC checks the coverage as an ASSUME) and with Denote(args).  Each text is placed in a
     probe tag built with @template_tag (records *args / **kwargs / flags) and in
@@ -18,8 +25,9 @@ spec -> code: TLC builds argument lists by actions (a bottom-up stack machine, s
     values must equal the expected ones with equal types (SafeString-ness ignored).  Leaves are valued by
     stock Django: FilterExpression(canonical text).resolve(context); nested-template strings by
     a stock Lexer/Parser render.  Invalid lists must raise TemplateSyntaxError.
-code -> spec: a seeded random driver builds deeper / wider lists with random styles (knob values
-    outside the covering array), renders them with its own text function, runs the real tags and
+code -> spec: a seeded random driver builds deeper / wider lists (over the syntax-sensitive and the
+    value-sensitive leaves together) with random styles (knob values outside the covering array),
+    renders them with its own text function, runs the real tags and
     records what they received; TLC (Trace_C02) checks for every record that the text is
     Text(args, style) of the specification and that the received values are Denote(args) with the
     recorded stock leaf values (one ACCEPT/REJECT per record).
@@ -36,6 +44,9 @@ TemplateSyntaxError (the current scanner does, counted as zone:...:refused in th
 if it is accepted it must denote the same values.
 `...[..]` / `...{..}` at top level is listed both as supported and as invalid in parse_tag's
 docstring; the tests and the changelog use it, so it is generated as valid.
+Values: dict literals follow a Python dict display (an entry whose key equals an earlier one - also
+False == 0 - replaces its value, the earlier key stays); unhashable keys, spreading None or text, and
+non-str keys in a dict spread into keyword arguments are not generated (wrong kind: unspecified).
 """
 from __future__ import annotations
 
@@ -53,9 +64,10 @@ from . import tlc
 from .core import Check, MachineryError, workdir
 
 PID = "C02"
-RULE = ("TLC (MC_C02) enumerates by BFS every argument list inside the bounds of configurations V/A/R/I and "
+RULE = ("TLC (MC_C02) enumerates by BFS every argument list inside the bounds of configurations V/A/R/I (syntax) "
+        "and N/M (value-sensitive alphabets: None / falsy values, HTML-special text in every argument position) and "
         "samples deeper ones with -simulate (S); each list is replayed on the probe tag and on the component tag "
-        "in k layouts of a 15-row pairwise covering array (quick k=3, thorough k=5, rotating with the case number); "
+        "in k layouts of a 15-row pairwise covering array (quick k=3, thorough k=5 - N/M: 3 -, rotating with the case number); "
         "random deeper lists are validated by Trace_C02.  Non-trivial = anything but a single plain positional "
         "leaf; distinct by hash of the abstract argument list")
 ASSUMPTIONS = [
@@ -63,6 +75,8 @@ ASSUMPTIONS = [
     "of a nested-template string the text a stock Lexer/Parser render produces",
     "all whitespace points of one kind share one value within a text (per-kind, not per-point layouts)",
     "dict results are compared as Python dicts (order-insensitive); SafeString counts as str",
+    "context values: int, str (also with & < > ' \"), SafeString, None, bool, 0, '', lists and dicts of these "
+    "(None / 0 / '' / text as dict keys); no floats, lazy strings, callables or objects with attributes",
     "top-level `...[..]` / `...{..}` is valid (docstring is contradictory; tests and changelog use it)",
 ]
 PROBE_TAG = "vfprobe"
@@ -91,7 +105,30 @@ CONFIGS = {
         "I": (2, 1, 1, 2, 1, False, True),
     },
 }
+# Value-sensitive configurations (kept apart from CONFIGS, which C12 re-uses for layouts): the
+# alphabets "vals" / "core" of MC_C02 - None / falsy values and HTML-special text in every
+# argument position.  N: every such leaf alone, as the item of a list, as key and as value of a
+# dict entry, as operand of every spread; M: the core of it in two-entry dicts / entry + spread /
+# two-item lists.  The optional 8th number bounds the items of a list literal.  The random walks
+# (S) use the small alphabet and the core together.
+VALUE_CONFIGS = {
+    "quick": {
+        "N": (2, 1, 1, 2, 1, "vals", False, 1),
+        "M": (4, 1, 1, 2, 1, "core", False),
+    },
+    "thorough": {
+        "N": (2, 2, 2, 2, 1, "vals", False, 1),
+        "M": (4, 2, 2, 2, 1, "core", False),
+    },
+    "selftest": {
+        "N": (2, 1, 1, 2, 1, "vals", False, 1),
+        "M": (3, 1, 1, 2, 1, "core", False),
+    },
+}
+SIM_CONFIGS = {"S": (9, 5, 3, 3, 4, "mixed", False)}
 NSTYLES = 15
+JVM_SMALL = "-XX:TieredStopAtLevel=1 -XX:ParallelGCThreads=2"
+_JVM = {"small": False}     # set by export_cases for the tiers whose TLC runs are short
 
 # ------------------------------------------------------------------ environment
 _ENV: Dict[str, Any] = {}
@@ -171,6 +208,13 @@ def lit(v: Dict[str, Any]) -> Any:
         return v["i"]
     if t == "str":
         return v["s"]
+    if t == "none":
+        return None
+    if t == "bool":
+        return bool(v["b"])
+    if t == "safe":
+        from django.utils.safestring import mark_safe
+        return mark_safe(v["s"])
     if t == "list":
         return [lit(x) for x in v["items"]]
     if t == "dict":
@@ -217,7 +261,7 @@ def stock_render(src: str) -> str:
 def value_of(v: Dict[str, Any]) -> Any:
     """Expected Python value of a Denote result (leaves valued by stock Django)."""
     t = v["t"]
-    if t in ("int", "str"):
+    if t in ("int", "str", "none", "bool"):
         return lit(v)
     if t == "leaf":
         return stock_leaf("".join(v["e"]))
@@ -395,8 +439,12 @@ def _tlc_export(job):
     write_cfg(cfg, c, 1, NSTYLES, ["Export"])
     if out.exists():
         out.unlink()
-    r = tlc.run("MC_C02", str(cfg), env={"OUT": str(out)}, workers=1, simulate=simulate, seed=seed,
-                depth=depth, timeout=3000)
+    e = {"OUT": str(out)}
+    if _JVM["small"]:
+        # short single-worker runs, many at a time: keep each JVM small (C1 only, two GC threads) -
+        # same wall time at about half the CPU
+        e["_JAVA_OPTIONS"] = JVM_SMALL
+    r = tlc.run("MC_C02", str(cfg), env=e, workers=1, simulate=simulate, seed=seed, depth=depth, timeout=3000)
     return name, r, str(out)
 
 
@@ -407,31 +455,50 @@ def _tlc_props(job):
     return name, tlc.run("MC_C02", str(cfg), workers=workers, timeout=3000)
 
 
-def export_cases(tier: str, w: Path, with_props: bool = True, sim: bool = False, seed: int = 0):
+def export_cases(tier: str, w: Path, with_props: bool = True, sim: bool = False, seed: int = 0,
+                 lazy_props: bool = False):
     """Run TLC on every configuration of the tier (export runs with 1 worker each, in parallel;
-    the specification-level invariants in separate runs).  -> {name: (TlcResult, path)}, props"""
+    the specification-level invariants in separate runs).  -> {name: (TlcResult, path)}, props
+    (lazy_props: an iterator of (name, (TlcResult, path)) that waits for one export at a time, and
+    props is a function that waits for the invariant runs - TLC goes on while cases are replayed)."""
     from concurrent.futures import ThreadPoolExecutor
-    cfgs = CONFIGS[tier]
+    _JVM["small"] = tier != "thorough"
+    cfgs = dict(CONFIGS[tier])
+    cfgs.update(VALUE_CONFIGS[tier])
     jobs = [(n, c, str(w), None, None, None) for n, c in cfgs.items()]
     if sim:
-        # random walks of the same machine beyond the BFS bounds (small alphabet: with the rich one
+        # random walks of the same machine beyond the BFS bounds (small alphabets: with the rich ones
         # almost every successor is a PushLeaf and the walks rarely complete a list)
-        n = 12000 if tier == "thorough" else 1500
-        jobs.append(("S", (9, 5, 3, 3, 4, False, False), str(w), f"num={n}", seed + 1, 40))
-    res, props = {}, {}
-    with ThreadPoolExecutor(max_workers=8) as ex:
-        futs = [ex.submit(_tlc_export, j) for j in jobs]
-        # the specification-level invariants: every configuration in thorough, V and R in quick
-        pc = {n: c for n, c in cfgs.items() if tier != "quick" or n in ("V", "R")}
-        pf = [ex.submit(_tlc_props, (n, c, str(w), 2)) for n, c in pc.items()] if with_props else []
-        for f in futs:
-            name, r, out = f.result()
-            tlc.require_ok(r, f"MC_C02 export {name}")
-            res[name] = (r, out)
-        for f in pf:
-            name, r = f.result()
-            props[name] = r
-    return res, props
+        n = 20000 if tier == "thorough" else 3000
+        for i, (sn, sc) in enumerate(SIM_CONFIGS.items()):
+            jobs.append((sn, sc, str(w), f"num={n}", seed + 1 + i, 40))
+    ex = ThreadPoolExecutor(max_workers=11)
+    # the specification-level invariants: every configuration in thorough, V and R in quick
+    pc = {n: c for n, c in cfgs.items() if tier != "quick" or n in ("V", "R")}
+    pf = [ex.submit(_tlc_props, (n, c, str(w), 2)) for n, c in pc.items()] if with_props else []
+    futs = {j[0]: ex.submit(_tlc_export, j) for j in jobs}
+
+    def one(name):
+        _, r, out = futs[name].result()
+        tlc.require_ok(r, f"MC_C02 export {name}")
+        return r, out
+
+    def props():
+        try:
+            return dict(f.result() for f in pf)
+        finally:
+            ex.shutdown(wait=True)
+    if lazy_props:
+        # the small exports first: their replay overlaps with the TLC runs that are still going on
+        first = ("M", "N", "S", "I", "V", "A", "R")
+        order = [n for n in first if n in futs] + [n for n in futs if n not in first]
+        return ((n, one(n)) for n in order), props
+    try:
+        res = {n: one(n) for n in futs}
+    except BaseException:
+        ex.shutdown(wait=True, cancel_futures=True)
+        raise
+    return res, props()
 
 
 def read_cases(path: str):
@@ -513,13 +580,21 @@ def nontrivial(case) -> bool:
                                                                  ("list", "dict", "filt", "tpl", "trans")))
 
 
+def header_only(w: Path) -> Dict[str, Any]:
+    """The header line of the export (context, styles, string tables): the smallest configuration."""
+    _, r, out = _tlc_export(("H", (1, 1, 1, 1, 1, False, False), str(w), None, None, None))
+    tlc.require_ok(r, "MC_C02 header")
+    return read_cases(out)[0]
+
+
 def spec_to_code(chk: Check, tier: str, procs: int, with_props: bool = True, sim: bool = True,
-                 k: Optional[int] = None):
-    w = workdir("c02mc")
-    res, props = export_cases(tier, w, with_props=with_props, sim=sim, seed=chk.seed)
-    for name, (r, out) in res.items():
+                 k: Optional[int] = None, exports=None):
+    """exports: what export_cases(.., lazy_props=True) returned, if the TLC runs were started before."""
+    res, props = exports or export_cases(tier, workdir("c02mc"), with_props=with_props, sim=sim, seed=chk.seed,
+                                         lazy_props=True)
+    for name, (r, out) in res:
         header, cases = read_cases(out)
-        if name == "S":     # simulation revisits states: one line per visit, keep distinct lists
+        if name in SIM_CONFIGS:     # simulation revisits states: one line per visit, keep distinct lists
             seen, uniq = set(), []
             for c in cases:
                 ck = json.dumps(c["args"], sort_keys=True)
@@ -538,8 +613,9 @@ def spec_to_code(chk: Check, tier: str, procs: int, with_props: bool = True, sim
         mid = cases[len(cases) // 2]
         chk.sample({"config": name, "args": mid["args"], "text": "".join(mid["texts"][min(2, len(mid["texts"]) - 1)]),
                     "expect": mid["expect"], "invalid": mid["invalid"]}, limit=8)
-        replay_cases(chk, header, cases, name, procs, k)
-    for name, r in props.items():
+        # the value-sensitive configurations in at most 3 layouts each (rotating like the others)
+        replay_cases(chk, header, cases, name, procs, min(k, 3) if k and name in VALUE_CONFIGS[tier] else k)
+    for name, r in props().items():
         if r.violated:
             chk.violation({"kind": "spec-invariant", "config": name},
                           {"violated": r.violated, "tlc_tail": r.out.splitlines()[-40:]})
@@ -580,13 +656,20 @@ class Gen:
         self.r = rnd
         self.nstr = len(header["strtab"])
         self.ntpl = len(header["tpltab"])
+        self.tpltab = header["tpltab"]
         self.ctx = header["ctx"]
+
+    # value-sensitive variables of the specification's context: None / falsy values, failed
+    # lookups, text with HTML-special characters (plain and marked safe), containers holding them
+    VAL_VARS = ["nn", "None", "f", "False", "True", "z", "es", "nope", "hs.1", "dh.u", "amp", "h", "sf", "hs", "dn", "dh"]
 
     def plain_leaf(self):
         r = self.r
-        k = r.randrange(9)
+        k = r.randrange(11)
         if k == 0:
             return V(r.choice(["x", "s", "xs", "ys", "e0", "d", "d2", "o.p.q", "xs.1", "o.p", "nope"]))
+        if k in (9, 10):
+            return V(r.choice(self.VAL_VARS))
         if k == 1:
             return N(r.choice(["42", "-1.5", "0", "7"]))
         if k in (2, 3):
@@ -599,19 +682,26 @@ class Gen:
 
     def filt(self):
         r = self.r
-        base = r.choice([V("x"), V("s"), V("xs"), V("nope"), S(1), S(2), S(3), N("42"), {"t": "trans", "id": 1}])
+        base = r.choice([V("x"), V("s"), V("xs"), V("nope"), S(1), S(2), S(3), N("42"), {"t": "trans", "id": 1},
+                         V("nn"), V("z"), V("es"), V("f"), V("amp"), V("h"), V("sf"), V("hs"), S(10)])
         fs = []
         for _ in range(r.randint(1, 3)):
             f = r.choice([("upper",), ("lower",), ("title",), ("length",), ("first",), ("safe",),
                           ("default", S(r.randrange(1, self.nstr + 1))), ("default", V("x")), ("add", N("2")),
                           ("add", V("x")), ("cut", S(4)), ("join", S(2)), ("default_if_none", {"t": "trans", "id": 1}),
-                          ("yesno", S(2)), ("slice", S(9))])
+                          ("yesno", S(2)), ("slice", S(9)),
+                          ("default_if_none", V("amp")), ("default", V("nn")), ("default", V("h")), ("escape",),
+                          ("last",), ("force_escape",)])
             fs.append(f)
         return F(base, *fs)
 
     def key_leaf(self):
         r = self.r
-        k = r.randrange(6)
+        k = r.randrange(8)
+        if k >= 6:      # keys that resolve to None / a falsy value / text with HTML-special characters
+            return r.choice([V("nn"), V("None"), V("False"), V("z"), V("es"), S(6), V("hs.1"), V("amp"), V("h"), V("sf"),
+                             S(10), F(V("h"), ("upper",)), F(V("hs"), ("last",))]
+                            + [{"t": "tpl", "id": i} for i in (9, 10, 11, 14, 21, 22)])
         if k < 3:
             return S(r.choice([2, 4, 5, 6, 7]))
         if k == 3:
@@ -625,13 +715,15 @@ class Gen:
             return self.lst(depth - 1)
         if k == 1:
             return F(V("xs"), ("slice", S(9)))
-        return V(r.choice(["xs", "ys", "e0"]))
+        return r.choice([V("xs"), V("ys"), V("e0"), V("hs"), {"t": "tpl", "id": 16}])
 
     def dict_operand(self, depth, plain=False):
+        """plain: the entries become keyword arguments (every key a str)."""
         r = self.r
         if r.randrange(3) == 0 and depth > 0:
             return self.dct(depth - 1, plain)
-        return V(r.choice(["d", "d2"]))
+        return r.choice([V("d"), V("d2"), V("dh"), {"t": "tpl", "id": 18}]
+                        + ([] if plain else [V("dn"), {"t": "tpl", "id": 17}]))
 
     def value(self, depth):
         r = self.r
@@ -664,8 +756,10 @@ class Gen:
         return {"t": "dict", "items": items}
 
     def lit_keys(self, v, strtab):
+        if v["t"] == "tpl":
+            v = V(self.tpltab[v["id"] - 1]["inner"][0])
         if v["t"] == "var":
-            return {e["k"]["s"] for e in self.ctx[v["n"]]["items"]}
+            return {e["k"]["s"] for e in self.ctx[v["n"]]["items"] if e["k"]["t"] == "str"}
         if v["t"] == "filt":
             return self.lit_keys(V("d"), strtab) | self.lit_keys(V("d2"), strtab)
         out = set()
@@ -867,7 +961,7 @@ def leaves_of(args, st_canon, strtab, tpltab):
     return out
 
 
-def slot_applies(args, ctxspec) -> bool:
+def slot_applies(args, ctxspec, tpltab=None) -> bool:
     """Whether the driver feeds the list to {% slot %} (keyword-only lists); TLC checks the choice
     against SlotApplies(args)."""
     for a in args:
@@ -875,6 +969,10 @@ def slot_applies(args, ctxspec) -> bool:
             continue
         if a["t"] == "spread" and a["tok"] == "...":
             v = a["v"]["b"] if a["v"]["t"] == "filt" else a["v"]
+            if v["t"] == "tpl" and tpltab is not None:
+                e = tpltab[v["id"] - 1]
+                if e["single"] and len(e["inner"]) == 1 and e["inner"][0] in ctxspec:
+                    v = V(e["inner"][0])
             if v["t"] == "dict" or (v["t"] == "var" and ctxspec.get(v["n"], {}).get("t") == "dict"):
                 continue
         return False
@@ -915,7 +1013,7 @@ def record_traces(header, seed: int, n: int, depth: int) -> List[Dict[str, Any]]
             continue
         rec = {"id": len(out) + 1, "args": args, "style": st, "text": syms, "lv": lv}
         for path in PATHS:
-            if path == "slot" and not slot_applies(args, header["ctx"]):
+            if path == "slot" and not slot_applies(args, header["ctx"], header["tpltab"]):
                 rec[path] = {"o": "n/a", "args": [], "kwargs": [], "flags": []}
             else:
                 rec[path] = obs_record(observe(path, text, st["slash"]))
@@ -923,7 +1021,14 @@ def record_traces(header, seed: int, n: int, depth: int) -> List[Dict[str, Any]]
     return out
 
 
-def code_to_spec(chk: Check, header, ntraces: int, depth: int, batch: int = 400) -> None:
+def code_to_spec(chk: Check, header, ntraces: int, depth: int, batch: int = 400, later: Optional[List] = None) -> None:
+    """later: a list that collects the reports (violations, samples) instead of making them - the
+    caller makes them after those of the exhaustive part, whose cases are the smaller ones."""
+    def report(what, *a, **kw):
+        if later is None:
+            getattr(chk, what)(*a, **kw)
+        else:
+            later.append((what, a, kw))
     w = workdir("c02tr")
     cfg = w / "trace.cfg"
     cfg.write_text("SPECIFICATION TrSpec\n")
@@ -949,10 +1054,10 @@ def code_to_spec(chk: Check, header, ntraces: int, depth: int, batch: int = 400)
                 key = status[4:] if status.startswith("dev:") else None
                 if what == "layout":
                     raise MachineryError(f"driver text is not the specification's layout of {t['args']} / {t['style']}")
-                chk.violation({"kind": "trace", "args": t["args"], "style": t["style"], "text": text, "path": what,
-                               "ctx": header["ctx"]},
-                              {"status": status, "observed": t[what], "stock_leaves": t["lv"]}, key=key)
-        chk.sample({"trace": {"text": "".join(traces[0]["text"]), "probe": traces[0]["probe"]}}, limit=10)
+                report("violation", {"kind": "trace", "args": t["args"], "style": t["style"], "text": text,
+                                     "path": what, "ctx": header["ctx"]},
+                       {"status": status, "observed": t[what], "stock_leaves": t["lv"]}, key=key)
+        report("sample", {"trace": {"text": "".join(traces[0]["text"]), "probe": traces[0]["probe"]}}, limit=10)
         total += n
         nb += 1
     chk.add("traces_validated_against_impl", total)
@@ -975,8 +1080,15 @@ def _verdicts(r, n: int) -> Dict[int, Optional[List[str]]]:
 def run(tier: str) -> int:
     env()
     chk = Check(PID, tier, "model_checking")
-    header = spec_to_code(chk, tier, procs=8, k=3 if tier == "quick" else 5)
-    code_to_spec(chk, header, ntraces=600 if tier == "quick" else 6000, depth=3 if tier == "quick" else 4)
+    w = workdir("c02mc")
+    # all TLC runs start now; while they enumerate, the random driver records its traces
+    exports = export_cases(tier, w, sim=True, seed=chk.seed, lazy_props=True)
+    later: List[Any] = []
+    code_to_spec(chk, header_only(w), ntraces=600 if tier == "quick" else 6000, depth=3 if tier == "quick" else 4,
+                 later=later)
+    spec_to_code(chk, tier, procs=8, k=3 if tier == "quick" else 5, exports=exports)
+    for what, a, kw in later:
+        getattr(chk, what)(*a, **kw)
     chk.cov["exhaustive"] = True
     chk.cov["rule"] = RULE
     chk.assumptions += ASSUMPTIONS
@@ -1003,10 +1115,7 @@ def replay(path: str) -> int:
         print(json.dumps({"text": case["text"], "path": case["path"], "observed_now": show(obs),
                           "recorded": d["detail"]}, indent=1, default=repr))
         w = workdir("c02rp")
-        hcfg = w / "h.cfg"
-        write_cfg(hcfg, (1, 1, 1, 1, 1, False, False), 1, NSTYLES, ["Export"])
-        tlc.require_ok(tlc.run("MC_C02", str(hcfg), env={"OUT": str(w / "h.ndjson")}, workers=1), "MC_C02 header")
-        header, _ = read_cases(str(w / "h.ndjson"))
+        header = header_only(w)
         set_ctx(header["ctx"])
         strtab, tpltab = header["strtab"], header["tpltab"]
         lv = []
@@ -1017,7 +1126,7 @@ def replay(path: str) -> int:
                }
         for pth in PATHS:
             rec[pth] = ({"o": "n/a", "args": [], "kwargs": [], "flags": []}
-                        if pth == "slot" and not slot_applies(case["args"], header["ctx"])
+                        if pth == "slot" and not slot_applies(case["args"], header["ctx"], header["tpltab"])
                         else obs_record(observe(pth, case["text"], st["slash"])))
         f = w / "one.ndjson"
         tlc.write_ndjson(f, [rec])
@@ -1189,7 +1298,100 @@ def selftest(tier: str) -> int:
         from django_components.util.misc import is_str_wrapped_in_quotes
         return tfm.TagResult(r.component_name, [t[1:-1] if is_str_wrapped_in_quotes(t) else t for t in r.tokens])
 
+    # ---- value-sensitive probes: the text of the tag is handled correctly, the VALUE is not
+    def dict_resolve(variant):
+        # TagValueStruct.resolve with the pending dict key tracked in one variable
+        def resolve(self, context):
+            if self.type != "dict":
+                return orig_resolve(self, context)
+            self.compile()
+            out: Dict[Any, Any] = {}
+            key, have = None, False
+            for e in self.entries:
+                v = e.resolve(context)
+                if (isinstance(e, tp.TagValueStruct) and e.spread) or (isinstance(e, tp.TagValue) and e.is_spread):
+                    out.update(v)
+                    continue
+                if variant == "none-key":        # None doubles as "no pending key"
+                    if key is None:
+                        key = v
+                    else:
+                        out[key] = v
+                        key = None
+                elif variant == "falsy-key":     # truthiness doubles as "no pending key"
+                    if not key:
+                        key = v
+                    else:
+                        out[key] = v
+                        key = None
+                else:                            # entries whose value is None are left out
+                    if not have:
+                        key, have = v, True
+                    else:
+                        if v is not None:
+                            out[key] = v
+                        have = False
+            return out
+        return resolve
+
+    def list_spread_skips_none(self, context):
+        if self.type != "list":
+            return orig_resolve(self, context)
+        self.compile()
+        out: List[Any] = []
+        for e in self.entries:
+            v = e.resolve(context)
+            if (isinstance(e, tp.TagValueStruct) and e.spread) or (isinstance(e, tp.TagValue) and e.is_spread):
+                out.extend(x for x in v if x is not None)
+            else:
+                out.append(v)
+        return out
+
+    def dyn_single(variant):
+        def resolve(self, context):
+            if len(self.nodelist) == 1 and isinstance(self.nodelist[0], VariableNode):
+                v = self.nodelist[0].filter_expression.resolve(context)
+                if variant == "escape":          # text is escaped as if it were rendered
+                    from django.utils.html import conditional_escape
+                    return conditional_escape(v) if isinstance(v, str) and context.autoescape else v
+                if variant == "none-to-empty":   # None is rendered like a failed lookup
+                    return "" if v is None else v
+                if v:
+                    return v
+                from django.template import NodeList            # "falsy-rendered": 0 / None / [] fall through to
+                return NodeList(self.nodelist).render(context)  # rendering the string as a template
+            return orig_dyn_resolve(self, context)
+        return resolve
+
+    def spread_drops_none_kwargs(tag, params, context):
+        out = orig_resolve_params(tag, params, context)
+        spread_keys = set()
+        for p in params:
+            if p.value.spread:
+                v = p.value.resolve(context)
+                if hasattr(v, "keys"):
+                    spread_keys |= {k for k in v.keys() if v[k] is None}
+        return [p for p in out if not (p.key in spread_keys and p.value is None)]
+
+    def agg_drops_falsy(params):
+        out = []
+        for p in dexpr.process_aggregate_kwargs(params):
+            if isinstance(p.value, dict) and p.key is not None and any(
+                    q.key is not None and q.key.startswith(p.key + ":") for q in params):
+                p = ttag.TagParam(key=p.key, value={k: v for k, v in p.value.items() if v})
+            out.append(p)
+        return out
+
     probes = [
+        ("dict-none-key-taken-for-no-key", many((tp.TagValueStruct, "resolve", dict_resolve("none-key")))),
+        ("dict-falsy-key-taken-for-no-key", many((tp.TagValueStruct, "resolve", dict_resolve("falsy-key")))),
+        ("dict-entry-with-none-value-dropped", many((tp.TagValueStruct, "resolve", dict_resolve("none-value")))),
+        ("list-spread-skips-none-items", many((tp.TagValueStruct, "resolve", list_spread_skips_none))),
+        ("single-tag-string-escapes-text", many((dexpr.DynamicFilterExpression, "resolve", dyn_single("escape")))),
+        ("single-tag-string-none-to-empty", many((dexpr.DynamicFilterExpression, "resolve", dyn_single("none-to-empty")))),
+        ("single-tag-string-falsy-rendered", many((dexpr.DynamicFilterExpression, "resolve", dyn_single("falsy-rendered")))),
+        ("spread-dict-none-values-dropped", many((dnode, "resolve_params", spread_drops_none_kwargs))),
+        ("aggregate-falsy-values-dropped", many((ttag, "process_aggregate_kwargs", agg_drops_falsy))),
         ("shorthand-formatter-pops-twice", many((tfm.ShorthandComponentFormatter, "parse", shorthand_pops_twice))),
         ("formatter-unquotes-every-token", many((tfm.ComponentFormatter, "parse", formatter_unquotes_every_token))),
         ("list-spread-appends", many((tp.TagValueStruct, "resolve", list_spread_appends))),
@@ -1214,7 +1416,7 @@ def selftest(tier: str) -> int:
             cache["cases"] = {n: read_cases(out) for n, (r, out) in res.items()}
         header = None
         for name, (header, cases) in cache["cases"].items():
-            replay_cases(chk, header, cases, name, procs=4, k=5)
+            replay_cases(chk, header, cases, name, procs=4, k=2 if name in VALUE_CONFIGS["selftest"] else 5)
         code_to_spec(chk, header, ntraces=150, depth=3)
 
     return run_probes(PID, probes, body)
